@@ -581,4 +581,40 @@ Section XmrProofs.
     assert (s = s1) by (unfold Ok in A1; congruence). assert (s = s2) by (unfold Ok in A2; congruence).
     subst s1 s2. rewrite D1 in D2. unfold Ok in D2. congruence.
   Qed.
+
+  (* the length of the text is a function of the length of the data alone: enc_max symbols per full block
+     plus the table width of the last, partial block (0 when there is none) *)
+  Theorem encode_length b s : bytes_ok b -> encode b = Ok s ->
+    exists e, nth_error enc_lens (length b mod dec_max) = Some e /\
+      length s = (length b / dec_max * enc_max + e)%nat.
+  Proof.
+    intros Hb.
+    set (cnt := (length b / dec_max)%nat). set (last := (length b mod dec_max)%nat).
+    assert (Hdm : dec_max <> 0%nat) by lia.
+    pose proof (Nat.div_mod (length b) dec_max Hdm) as DM. fold cnt last in DM.
+    pose proof (Nat.mod_upper_bound (length b) dec_max Hdm) as LB. fold last in LB.
+    set (hd := firstn (cnt * dec_max) b). set (tl := skipn (cnt * dec_max) b).
+    assert (Hsplit : b = hd ++ tl) by (symmetry; apply firstn_skipn).
+    assert (Lhd : length hd = (cnt * dec_max)%nat) by (unfold hd; rewrite firstn_length; lia).
+    assert (Ltl : length tl = last) by (unfold tl; rewrite skipn_length; lia).
+    assert (Bhd : bytes_ok hd) by (apply bytes_ok_firstn; auto).
+    assert (Btl : bytes_ok tl) by (apply bytes_ok_skipn; auto).
+    assert (Efull : enc_blocks cnt b = enc_blocks cnt hd)
+      by (rewrite Hsplit at 1; apply enc_blocks_prefix; exact Lhd).
+    pose proof (enc_blocks_length cnt hd Bhd Lhd) as Lfull.
+    unfold Base58Xmr.encode. fold cnt last. rewrite Efull.
+    destruct (Nat.ltb_spec 0 last) as [Hpos|Hz].
+    - destruct (lens_defined last ltac:(lia)) as [e He]. rewrite He. cbn [of_option bind Ok].
+      assert (Etl : slice (cnt * dec_max) (cnt * dec_max + last) b = tl).
+      { unfold slice. fold tl. replace (cnt * dec_max + last - cnt * dec_max)%nat with last by lia.
+        rewrite <- Ltl. apply firstn_all. }
+      rewrite Etl. intros E. exists e. split; [reflexivity|].
+      destruct (block_roundtrip tl last e Btl Ltl He) as (P & _).
+      assert (Es : s = enc_blocks cnt hd ++ pad e (b58enc tl)) by (unfold Ok in E; congruence).
+      rewrite Es, app_length, Lfull, P. reflexivity.
+    - intros E. exists 0%nat. assert (last = 0%nat) by lia.
+      split; [replace last with 0%nat by lia; exact lens_0|].
+      assert (Es : s = enc_blocks cnt hd) by (unfold Ok in E; congruence).
+      rewrite Es, Lfull. lia.
+  Qed.
 End XmrProofs.
